@@ -60,6 +60,10 @@ type constEval struct {
 	stopBlock func(next, from *ssa.BasicBlock, val func(ssa.Value) *cv) bool // about to enter next: stop?
 	stopInstr func(in ssa.Instruction) bool                                  // about to execute in: stop?
 	ended     *evalEnd                                                       // how a hooked evaluation ended
+
+	// onCall is asked first about every call, at any depth: it may model the call (output written,
+	// a library function with a known meaning) and say what it yields
+	onCall func(cc *ssa.CallCommon, args []*cv) (*cv, bool)
 }
 
 // evalEnd: where an evaluation was stopped by a hook.
@@ -556,6 +560,19 @@ func (ce *constEval) exec(p *Prog, fn *ssa.Function, params map[*ssa.Parameter]*
 						out = append(out, val(a))
 					}
 					return out, nil
+				}
+				if ce.onCall != nil {
+					var args []*cv
+					for _, a := range x.Call.Args {
+						args = append(args, val(a))
+					}
+					if out, handled := ce.onCall(&x.Call, args); handled {
+						if out == nil {
+							out = cvU
+						}
+						env[x] = out
+						continue
+					}
 				}
 				if bi, ok := x.Call.Value.(*ssa.Builtin); ok && bi.Name() == "len" {
 					a := val(x.Call.Args[0])
